@@ -70,6 +70,21 @@ def isHarmonicB (n : Nat) (w : Nat → Nat → Rat) (s : Seeds) (h : List Rat) :
     | some t => h.getD i 0 == t
     | none => (total n fun j => w i j) * h.getD i 0 == total n fun j => w i j * h.getD j 0
 
+/-! ### connection to the boundary -/
+
+/-- node `i` reaches a seed within `t` steps along edges of positive weight -/
+inductive ReachesSeed (n : Nat) (w : Nat → Nat → Rat) (seed : Nat → Bool) : Nat → Nat → Prop
+  | here {i t : Nat} : i < n → seed i = true → ReachesSeed n w seed t i
+  | step {i j t : Nat} : i < n → 0 < w i j → ReachesSeed n w seed t j → ReachesSeed n w seed (t+1) i
+
+/-- a path of edges of positive weight inside the `n` nodes -/
+inductive Path (n : Nat) (w : Nat → Nat → Rat) : Nat → Nat → Prop
+  | refl {i : Nat} : i < n → Path n w i i
+  | head {i k j : Nat} : i < n → 0 < w i k → Path n w k j → Path n w i j
+
+/-- the graph is connected -/
+def Connected (n : Nat) (w : Nat → Nat → Rat) : Prop := ∀ i j, i < n → j < n → Path n w i j
+
 def symmetric (n : Nat) (w : Nat → Nat → Rat) : Bool :=
   (List.range n).all fun i => (List.range n).all fun j => w i j == w j i
 
